@@ -655,12 +655,14 @@ fn judge_regular(case: &Value, exps: &[&Value], obs: &Value, engine: &str) -> Ju
             "err" => {
                 let class = exp["class"].as_str().unwrap_or("");
                 if engine == "interp" {
+                    if !defd {
+                        // the run depends on undefined state or raw addresses (e.g. an address beyond
+                        // the VM's own buffer that may fall into its stack): only crash-freedom is claimed
+                        return Judgement::Pass;
+                    }
                     if k != "err" {
                         reasons.push(format!("expected an error ({class}) but outcome is {k} {}", obs["val"]));
                         continue;
-                    }
-                    if !defd {
-                        return Judgement::Pass;
                     }
                     match effects_match(case, exp, obs) {
                         Ok(()) => return Judgement::Pass,
